@@ -876,8 +876,11 @@ def build_parameters(params):
             elif all(isinstance(v, str | tuple | int) for v in vals) and len(set(vals)) == len(vals):
                 d[f"p{p}"] = {v: 0 for v in vals}  # a dict is iterated over its keys
             else:
-                # (one-shot iterators are outside C13's quantifier: batch_run re-reads the parameters per iteration)
                 raise BadOp(kind)
+        elif kind == "once":
+            # a one-shot iterator (outside C13's quantifier: batch_run re-reads `parameters` once per iteration, so
+            # it is spent after iteration 0 — modelled, see C13_oneshot_parameters)
+            d[f"p{p}"] = iter(vals) if p % 2 == 0 else (v for v in vals)
         else:
             raise BadOp(kind)
     return d
@@ -946,7 +949,7 @@ def run_batch(sc):
                 if len(ws) < 3:
                     raise BadOp(ws)
                 p, kind, toks = to_nat(ws[1]), ws[2], ws[3:]
-                if any(q == p for q, _, _ in spec.params) or kind not in ("str", "scalar", "sized", "iter"):
+                if any(q == p for q, _, _ in spec.params) or kind not in ("str", "scalar", "sized", "iter", "once"):
                     raise BadOp(ws)
                 if kind in ("str", "scalar") and len(toks) != 1:
                     raise BadOp(ws)
@@ -961,7 +964,8 @@ def run_batch(sc):
                     obs.append("err Value")
                     continue
                 obs.append(" ".join(["ok"] + [fmt_kw_tokens([(n[1:], encode_val(v)) for n, v in kw.items()]) for kw in kws]))
-            elif k in ("run", "runp") and len(ws) == (4 if k == "run" else 5):
+            elif k in ("run", "runp") and len(ws) - (ws[-1] == "prog") == (4 if k == "run" else 5):
+                prog = ws[-1] == "prog"
                 it, ms, per = to_nat(ws[1]), to_nat(ws[2]), to_int(ws[3])
                 nproc = to_nat(ws[4]) if k == "runp" else 1
                 if k == "runp" and nproc < 1:
@@ -969,7 +973,7 @@ def run_batch(sc):
                 text = "\n".join(spec_lines)
                 cls = functools.partial(ScriptModel, _spec=text)
                 ScriptModel.instances.clear()
-                rec = {"iterations": it, "max_steps": ms, "period": per, "nproc": nproc, "spec_text": text,
+                rec = {"iterations": it, "max_steps": ms, "period": per, "nproc": nproc, "spec_text": text, "prog": prog,
                        "params": list(spec.params), "n_m": len(spec.mreps), "n_a": len(spec.areps)}
                 runs.append(rec)
                 import signal
@@ -980,8 +984,12 @@ def run_batch(sc):
                     left = max(left, 180)
                 signal.alarm(left)
                 try:
-                    rows = batch_run(cls, build_parameters(spec.params), number_processes=nproc, iterations=it,
-                                     data_collection_period=per, max_steps=ms, display_progress=False)
+                    import contextlib
+                    import io
+
+                    with contextlib.redirect_stderr(io.StringIO()):  # the tqdm bar
+                        rows = batch_run(cls, build_parameters(spec.params), number_processes=nproc, iterations=it,
+                                         data_collection_period=per, max_steps=ms, display_progress=prog)
                 except ValueError:
                     rec["result"] = "err Value"
                     obs.append("err Value")
@@ -1084,6 +1092,17 @@ def oracle_batch(sc, obs):
         if "rows" not in rec:
             continue  # batch_run raised (empty sized parameter / period 0): nothing to judge
         rows, it, ms, per = rec["rows"], rec["iterations"], rec["max_steps"], rec["period"]
+        if any(kind == "once" for _, kind, _ in rec["params"]):
+            # a one-shot iterator is outside the quantifier from the second iteration on (it is spent): the design is
+            # judged for iteration 0, which the property still covers
+            it = min(it, 1)
+        # results.extend(data): the rows of one run are contiguous (and RunIds ascend when run serially)
+        ids = [r.get("RunId") for r in rows]
+        blocks = [x for i, x in enumerate(ids) if i == 0 or ids[i - 1] != x]
+        if len(blocks) != len(set(blocks)):
+            bad.append("chunks: the rows of one run are not contiguous in the result")
+        if rec["nproc"] == 1 and blocks != sorted(blocks):
+            bad.append("chunks: serial run, but the RunIds do not ascend")
         names = [f"p{p}" for p, _, _ in rec["params"]]
         # the design: cartesian product of the value lists, times iterations
         combos = [[]]
@@ -1372,6 +1391,9 @@ def gen_param(R, p):
         n = R.choice([0, 1, 1, 2, 2, 3]) if R.random() < 0.12 else R.choice([1, 1, 2, 2, 3])
         return f"param {p} sized " + " ".join(R.choice(PARAM_TOKS) for _ in range(n))
     kind = R.random()
+    if k > 0.94:
+        # a generator / iter(...): spent after the first iteration
+        return f"param {p} once " + " ".join(R.choice(PARAM_TOKS) for _ in range(R.choice([0, 1, 2, 2, 3])))
     if kind < 0.5:
         a, n = R.choice([0, 1, 2]), R.choice([0, 1, 2, 3]) if R.random() < 0.15 else R.choice([1, 2, 3])
         toks = [f"i{a + j}" for j in range(n)]
@@ -1442,8 +1464,11 @@ def gen_batch_scenario(R, nprocs=(1,), small=False):
     its = R.choice([1, 1, 2, 3]) if not small else R.choice([1, 2])
     ms = R.choice([0, 1, 2, 3, 4, 5, 6])
     per = R.choice([-1, -1, 1, 1, 2, 3, 0 if R.random() < 0.1 else 2])
+    if R.random() < 0.1:
+        per = R.choice([7, 50])  # larger than any run: first and last collection
+    prog = " prog" if R.random() < 0.15 else ""
     for np_ in nprocs:
-        lines.append(f"run {its} {ms} {per}" if np_ == 1 else f"runp {its} {ms} {per} {np_}")
+        lines.append((f"run {its} {ms} {per}" if np_ == 1 else f"runp {its} {ms} {per} {np_}") + prog)
     if R.random() < 0.3 and nprocs == (1,):
-        lines.append(f"run {R.choice([1, 2])} {R.choice([0, 2, 4])} {R.choice([-1, 1, 2])}")
+        lines.append(f"run {R.choice([1, 2])} {R.choice([0, 2, 4])} {R.choice([-1, 1, 2, 9])}")
     return core.Scenario(lines, {})
